@@ -60,13 +60,27 @@ func c18Pause(d *vCtx) error {
 			return err
 		}
 		type job struct {
-			base  int
-			pause e2ePause
+			base    int
+			pause   e2ePause
+			silence *e2eSil
 		}
 		var jobs []job
 		for bi := range bases {
 			tmo := bases[bi].Opts.Timeout * 1000
 			delays := []int{tmo / 5, tmo / 2, tmo * 13 / 10, tmo * 5 / 2}
+			// the peer dies (its direction falls silent) and the user pauses and continues while the client's
+			// read is already waiting: the pause forgives one time-out, the next one must end the transfer
+			if bases[bi].Plan.Hold == nil && bases[bi].Opts.Protocol >= 3 {
+				nsil := 0
+				for _, m := range layouts[bi] {
+					if m.Dir != "s2c" || m.K < 3 || (m.K%3 != 0 && !thorough) || nsil >= 5 {
+						continue
+					}
+					nsil++
+					jobs = append(jobs, job{bi, e2ePause{G: m.G, Phase: "after", ResumeMs: 300, Cycles: 1, DelayMs: 400},
+						&e2eSil{Dir: "s2c", K: m.K}})
+				}
+			}
 			for g := range layouts[bi] {
 				if bases[bi].Plan.Hold != nil {
 					// only where pieces are written: data messages of the client after the late acknowledgement
@@ -74,17 +88,17 @@ func c18Pause(d *vCtx) error {
 					if m.Dir != "c2s" || m.Typ != "DATA" || m.K < 12 || (g%2 == 1 && !thorough) {
 						continue
 					}
-					jobs = append(jobs, job{bi, e2ePause{G: g, Phase: "after", ResumeMs: 400, Cycles: 1}})
+					jobs = append(jobs, job{bi, e2ePause{G: g, Phase: "after", ResumeMs: 400, Cycles: 1}, nil})
 					continue
 				}
 				for pi, ph := range []string{"before", "after"} {
 					// every message gets the two short delays on alternating phases; long ones are sampled
-					jobs = append(jobs, job{bi, e2ePause{G: g, Phase: ph, ResumeMs: delays[pi], Cycles: 1}})
+					jobs = append(jobs, job{bi, e2ePause{G: g, Phase: ph, ResumeMs: delays[pi], Cycles: 1}, nil})
 					if (g+pi)%3 == 0 || thorough {
-						jobs = append(jobs, job{bi, e2ePause{G: g, Phase: ph, ResumeMs: delays[2+(g+pi)%2], Cycles: 1}})
+						jobs = append(jobs, job{bi, e2ePause{G: g, Phase: ph, ResumeMs: delays[2+(g+pi)%2], Cycles: 1}, nil})
 					}
 					if (g+pi)%5 == 0 {
-						jobs = append(jobs, job{bi, e2ePause{G: g, Phase: ph, ResumeMs: tmo / 6, Cycles: 3}})
+						jobs = append(jobs, job{bi, e2ePause{G: g, Phase: ph, ResumeMs: tmo / 6, Cycles: 3}, nil})
 					}
 				}
 			}
@@ -103,6 +117,7 @@ func c18Pause(d *vCtx) error {
 			cc.ID = ji
 			pa := j.pause
 			cc.Plan.Pause = &pa
+			cc.Plan.Silence = j.silence
 			_, detail, err := e2eExec(&cc, e2eWorkDir(base, cc.ID), tr, false)
 			if err != nil {
 				return err
